@@ -7,10 +7,30 @@ BASELINE_OFF = ("cd /repo && cargo nextest run --workspace --no-fail-fast --test
 
 # id -> (design section, technique, level text, level note)
 CHECKS = {
+ "C01": ("4/C01",
+         "bounded-exhaustive program enumeration on the real pipeline (parse, typecheck, MIR, LIR, Cranelift) against a reference interpreter: every expression/skeleton/template program of the bounded grammar x every boundary input vector",
+         "Every numeric expression over all operators (all 8 integer widths, f32, f64) with every operator at every operand position of every other operator, all comparison/logic forms, COMPLETE truth tables of all depth-1 programs on all 65 536 operand pairs of u8/i8, every control-flow skeleton of up to 3 constructs (16 constructs: if/else/else-if, while, for, match with guards and `_`, block expressions, early return, short-circuit operands with effects, calls, recursion, compound assignment, shadowing) nested to depth 2, and hand-enumerated templates for arity 0-7, argument permutations over distinct types, self/mutual recursion and every literal-typing context x every numeric type; each program is compiled through the public API and called on the boundary cross product; value and host-call log must equal the reference interpreter c00ref. Exhaustive within the bounds; thorough widens to full depth-2 products and size-4 skeletons.",
+         "Programs larger than the bound and operand values strictly between boundary values of >=32-bit types are not enumerated; the reference interpreter (c00ref, ~700 lines) is trusted; x86-64 only."),
+ "C04": ("4/C04",
+         "exhaustive enumeration of (script signature, requested Rust signature) pairs through the public Package::get_function against an independent structural type-equality oracle",
+         "One generated package declares a function for every type of a 588-type grammar (20 leaves, Option/List/Result/Verdict nestings to depth 2), 57 filtermaps, all arity signatures up to 7 (plus 8/9), shadowing declarations, tests and 1 300+ compiler-generated helpers; EVERY target is requested under EVERY one of 365 Rust function types (663 116 decisions quick, 2.96 M thorough): Ok iff the descriptors are structurally equal, never a panic; diagonal handles are called once.",
+         "Rust-side nesting depth is bounded by rustc instantiation time (depth 2); types that cannot be named outside the crate are not reachable; descriptor oracle (Desc trait) trusted."),
+ "C08": ("4/C08",
+         "bounded-exhaustive program enumeration with an effect marker at every sub-expression position, executed on the real pipeline and compared with the reference interpreter's host-call log",
+         "All effect-marker expressions over every multi-operand construct (operators, calls with 1-4 arguments, method calls with effectful receiver and arguments, record literals in non-declared order, list literals, enum constructors, f-strings, blocks, if/else, match) to depth 2 (thorough 3), and all statement bodies (compound assignment reading its target first, return, for, if, while, guarded match with interleaved `_` arms, `?`, early return) to size 2 (thorough 3); each program runs on all 16 vectors of its four bool inputs; the log (function, arguments, order, multiplicity) and the value must equal the model's.",
+         "Programs beyond the depth/size bound; reference interpreter c00ref defines the order semantics."),
+ "C09": ("4/C09",
+         "exhaustive enumeration of literal spellings, identifiers and operator sequences against independent decoders and a reference precedence parser written from the documentation",
+         "Every integer/hex/float spelling of the bounded grammar with every underscore placement and suffix, every escape (all 256 \\xNN, \\u{} boundaries), line continuations, f-string texts over a multi-byte alphabet around 0-2 interpolations, IPv4/IPv6/ASN/prefix forms, identifier class representatives (thorough: EVERY Unicode scalar value as first and second character), keywords, comments/shebang at every token gap, and ALL sequences of k <= 3 (thorough 5) binary operators with unary masks: accepted spellings must denote the decoded value; unparenthesised and reference-parenthesised programs must agree on all input vectors; forbidden chains must be rejected.",
+         "Only accepted spellings are judged for value; `unicode-ident` is the trusted XID reference; operand domain {-3..3}."),
  "C10": ("4/C10",
          "bounded-exhaustive input enumeration on the real JIT: every (operator, int type) on all operand pairs of the bounded domain and every built-in on the cross product of edge domains, each call in a crash-isolated worker",
          "Every integer operator of every width runs on ALL 65 536 operand pairs (8-bit; thorough: all 2^32 pairs for 16-bit) or on the boundary cross product (wider types), and every built-in runs on the full cross product of per-parameter edge domains; the oracle is survival of the worker process, so any trap, abort or panic across the FFI boundary on any enumerated input is reported with the exact operands. Exhaustive inside the stated bounds, real compiled code, no sampling.",
          "Values strictly between boundary values for >=32-bit operands are not enumerated; x86-64 only; resource-exhaustion excluded by construction."),
+ "C20": ("4/C20",
+         "differential bounded-exhaustive enumeration: each generated program is lowered once (hook H4), evaluated by the crate's IR evaluator and JIT-compiled from the same IR; results and host-call logs compared on every input vector",
+         "The C01 program families restricted to scalar parameters (all operators and widths at depth 1, truth-table programs, comparison/logic forms, control-flow skeletons up to size 2 (thorough 3) including calls, match, loops and early return) on a path-covering boundary input set; a completed evaluation must equal the JIT's value and log; evaluator panics are allowed and counted per message class so vacuity is visible (about 70% of evaluations complete).",
+         "Inputs on which the language leaves the result open are skipped; only scalar-returning functions; evaluator panics in debug builds on overflow are 'stops loudly'."),
  "C16": ("4/C16",
          "stateless model checking of the real List/ErasedList/RawList code: controlled scheduler over real OS threads, all interleavings up to a preemption bound at lock-acquisition / element-pointer-use granularity (exact blocking via try_lock probe), with stale-pointer, lockset, deadlock and brute-force linearizability oracles",
          "All programs of 2 threads x 2 operations over a 10-operation menu (thorough: 17 operations unbounded, plus 2x3 and 3x2 shapes at bound 3) on two colliding lists, one pre-filled to capacity so that a push relocates, in both address orders of the two lists; for each program EVERY schedule with at most 2 preemptions is executed on the real code. Each execution is checked for use of an element pointer whose buffer generation changed (deterministic use-after-free detector), element reads outside the critical section (lockset probe), deadlock (no enabled thread), linearizability of the recorded call/return history against the Vec model (brute force) and final contents.",
